@@ -142,6 +142,20 @@ def tempArray (tp : List α) (pp : Option (List α)) (rev : Bool) (nlayers : Nat
   | none => tempArrayPlain tp' nlayers
   | some pts => tempArrayPressure tp' (if rev then pts.reverse else pts) pressure
 
+/-! ### TempScaler (the temperature mixin `tempscalar+<profile>`)
+
+`TempScaler.profile` is `super().profile * self._scale_factor`: a NEW array, every entry of the wrapped profile times the scale
+factor; the wrapped profile (its stored control temperatures included) is what it was. -/
+
+/-- `TempScaler.profile` over the wrapped class's profile `prof` -/
+def tempScaler (scale : α) (prof : List α) : List α := prof.map (fun t => t * scale)
+
+/-- `k` successive evaluations of `.profile` of a scaled TemperatureArray: each one evaluates the wrapped profile from the
+    stored controls and scales the result -/
+def tempScalerReads (scale : α) (tp : List α) (pp : Option (List α)) (rev : Bool) (nlayers : Nat) (pressure : List α)
+    (k : Nat) : List (List α) :=
+  List.replicate k (tempScaler scale (tempArray tp pp rev nlayers pressure))
+
 /-! ### Guillot 2010 -/
 
 variable [OfNat α 2] [OfNat α 3] [OfNat α 4]
